@@ -526,7 +526,7 @@ class ExprMixin:
             self.frame.env = saved
             return out
         if gen.ifs:
-            raise Unsupported("filtered comprehension over a symbolic list")
+            return self.filtered_comp(node, gen, it)
         if isinstance(it.elem, TOpaque) and not self.ctx.spec_mode and self._elt_is_opaque_method(node.elt, gen.target):
             # opaque elements (e.g. lazy argument objects): the element expression is abstracted to an
             # uninterpreted function of the element; its calls are assumed not to touch modelled state
@@ -551,6 +551,37 @@ class ExprMixin:
         if ety is None:
             raise Unsupported("comprehension element type")
         return SList(it.len, z3.Lambda([j], ety.unwrap(v, self.ctx)), ety)
+
+    def filtered_comp(self, node, gen, it):
+        """[elt for x in L if P]: the elements of L that satisfy P, in order (a fresh list characterised by an
+        increasing index map onto exactly the positions where P holds)."""
+        j = self.ctx.fresh("fj", z3.IntSort())
+        saved = dict(self.frame.env)
+        self.assign(gen.target, it.elem.wrap(it.arr[j]))
+        self.ctx.spec_mode += 1
+        try:
+            conds = [zb(to_bool_term(self.ev(c))) for c in gen.ifs]
+            v = self.ev(node.elt)
+        finally:
+            self.ctx.spec_mode -= 1
+            self.frame.env = saved
+        P = z_and(*conds)
+        ety = type_of(v, self.reg)
+        if ety is None:
+            raise Unsupported("comprehension element type")
+        vt = ety.unwrap(v, self.ctx)
+        g = z3.Function(str(self.ctx.fresh("filt.idx", z3.IntSort())), z3.IntSort(), z3.IntSort())
+        m = self.ctx.fresh("filt.len", z3.IntSort())
+        k, a, b, i = z3.Ints("ft_k ft_a ft_b ft_i")
+
+        def Pat(t):
+            return z3.substitute(zb(P), (j, t))
+        self.ctx.assume(m >= 0)
+        self.ctx.assume(z3.ForAll([k], z3.Implies(z3.And(0 <= k, k < m), z3.And(0 <= g(k), g(k) < it.len, Pat(g(k))))))
+        self.ctx.assume(z3.ForAll([a, b], z3.Implies(z3.And(0 <= a, a < b, b < m), g(a) < g(b))))
+        self.ctx.assume(z3.ForAll([i], z3.Implies(z3.And(0 <= i, i < it.len, Pat(i)),
+                                                  z3.Exists([k], z3.And(0 <= k, k < m, g(k) == i)))))
+        return SList(m, z3.Lambda([k], z3.substitute(vt, (j, g(k)))), ety)
 
     ev_GeneratorExp = ev_ListComp
 
